@@ -372,6 +372,10 @@ func (b *Broker) handleConn(conn net.Conn) {
 	err = connack.Write(conn)
 	if err != nil {
 		logger.SpanErrorf(nil, "send connack to client %s failed: %s", connect.ClientIdentifier, err)
+		// the client is already registered: tear it down like readLoop does,
+		// otherwise its entry occupies a connection slot forever
+		client.closeAndDelSession()
+		b.removeClient(cid)
 		return
 	}
 
